@@ -670,6 +670,29 @@ ADAPTER_NEXT[COPIED] = ad_cloned_next
 
 def ad_rev_next(E, st, ptr, v, fid, item_ty=None):
     inner = E.load(st, _field_ptr(E, st, ptr, 0))
+    if inner[0] == 'adt' and inner[1] == ENUMERATE and inner[3][0][0] == 'sliceit' and inner[3][1][0] == 'int':
+        # Rev<Enumerate<slice iterator>>: the back element, with the index count + remaining - 1; as long as the
+        # enumeration has only been consumed from the back (count == front of the slice cursor) that is the
+        # position of the element itself
+        _, mid, fr, bk, mut = inner[3][0]
+        cnt = inner[3][1][1]
+        if not ((isinstance(cnt, int) and isinstance(fr, int) and cnt == fr) or st.zone.entails_eq(cnt, fr)):
+            raise Unproven('Rev<Enumerate<..>> after the enumeration was advanced from the front')
+        out = []
+        a = st.fork()
+        a.zone.add_lt(fr, bk)
+        if a.zone.sat:
+            nb = fresh('p')
+            a.zone.add_eq(bk, nb, 1)
+            ip = _field_ptr(E, a, ptr, 0)
+            E.store(a, _field_ptr(E, a, ip, 0), ('sliceit', mid, fr, nb, mut))
+            a.log('adv', mid, nb, 'back')
+            out.append(('ret', a, some(('tuple', (I(nb), ('ref', mut, ('mu', mid, nb)))))))
+        st.zone.add_le(bk, fr)
+        if st.zone.sat:
+            st.log('cursor-end', mid)
+            out.append(('ret', st, NONE))
+        return out
     if inner[0] == 'sliceit':
         _, mid, fr, bk, mut = inner
         out = []
